@@ -66,6 +66,8 @@ func intArray4(a [4]int) eval.Value {
 
 func C08(c *core.Ctx) {
 	c.Explanation("C08: (R2) findUpDownCatchment (with rearrangeCatchment and balance) and findUpDownCatchmentPushDistance (with refactorPushCatchment) are interpreted on every bounded target stream with the pair classifier replaced by a table look-up, for each bin separately (which also cross-checks the four hand-copied bin blocks) and for mixed streams; every bin must be the prefix of its candidates ordered by distance, then fewer ambiguities, then file order, within the bin's distance limit, cut to the size balance() allots; (R3) balance() is interpreted exhaustively over requested/available sizes in 0..2 (quick) or 0..3 (thorough) against the specified allocation (min(requested, available) with --no-fill; otherwise even make-up until total or supply is exhausted); (R1) whichWay is interpreted on every pair of short sequences over {A,C,G,N} (converted by the interpreted getLines) against the specified bin and distance; (R4) checkArgs option normalisation over a grid of option values; the two writers on a symbolic result for column order and bin naming.")
+	checkSoftGapReaders(c, "R9", "pkg/updown")
+	c09Inputs(c) // the records the binning sees are the same for FASTA and CSV input
 	lineT := namedType(c, "pkg/updown", "updownLine")
 	if lineT == nil {
 		c.Und("R0/types", token.NoPos, "UNRESOLVED type updown.updownLine")
@@ -319,6 +321,7 @@ func c08Bins(c *core.Ctx, lineT types.Type) {
 		}
 	}
 	c.Ob("R2/findUpDownCatchment/mixed-bins-fill-ignore", len(bad) == 0, fn.Pos(), "%s", first(bad, 4))
+	c08IgnoreMembership(c)
 	c.Count("streams_evaluated", nEval)
 	c.Sample(map[string]interface{}{"rule": "R2", "bin": "up", "stream": "t0(d=2,a=0) t1(d=1,a=1) t2(d=1,a=0)", "K": 2, "want": []string{"t2", "t1"}})
 }
@@ -737,4 +740,52 @@ func c08Writers(c *core.Ctx) {
 		}
 		c.Ob("R4/writer/"+w.name, sb.String() == w.want, fn.Pos(), "bytes written for a symbolic result with two named targets per bin: %q, want %q", sb.String(), w.want)
 	}
+}
+
+// c08IgnoreMembership: the --ignore test is plain membership for every list in file order (unsorted, with
+// duplicates): all lists of up to 4 names over a 4-name alphabet, every probe.
+func c08IgnoreMembership(c *core.Ctx) {
+	fn := c.LookupFunc("pkg/updown", "stringInArray")
+	if fn == nil {
+		c.Und("R2/ignore-list-membership", token.NoPos, "UNRESOLVED anchor updown.stringInArray")
+		return
+	}
+	names := []string{"T_up", "T_down", "T_far", "a"}
+	var lists [][]string
+	var gen func(cur []string, n int)
+	gen = func(cur []string, n int) {
+		lists = append(lists, append([]string{}, cur...))
+		if n == 0 {
+			return
+		}
+		for _, s := range names {
+			gen(append(cur, s), n-1)
+		}
+	}
+	gen(nil, 4)
+	var bad []string
+	for _, l := range lists {
+		var vs []eval.Value
+		in := map[string]bool{}
+		for _, s := range l {
+			vs = append(vs, eval.S(s))
+			in[s] = true
+		}
+		for _, probe := range append(names, "zz", "") {
+			ev := newEval(c)
+			got, err := ev.CallFunc(fn, eval.S(probe), eval.NewSlice(vs...))
+			if err != nil {
+				c.Und("R2/ignore-list-membership", fn.Pos(), "undecided: %v", err)
+				return
+			}
+			if b, ok := got.(bool); !ok || b != in[probe] {
+				bad = append(bad, fmt.Sprintf("%q in %v -> %v, want %v", probe, l, got, in[probe]))
+			}
+		}
+		if len(bad) > 20 {
+			break
+		}
+	}
+	c.Count("ignore_lists_evaluated", len(lists))
+	c.Ob("R2/ignore-list-membership", len(bad) == 0, fn.Pos(), "%s", first(bad, 3))
 }
